@@ -292,7 +292,7 @@ def extract(units, files_re=None, fn_re=None, no_body=False, root=None, rest_lig
     return facts
 
 
-def prune_cache(max_files=6000):
+def prune_cache(max_files=16000):
     try:
         fs = sorted((os.path.getmtime(p), p) for p in glob.glob(os.path.join(CACHE, "*.jsonl")))
     except OSError:
